@@ -168,6 +168,41 @@ def plan(pid, tier, Query):
         grow_ops = ['push_back_copy', 'push_back_move', 'emplace_back', 'insert_one_copy', 'insert_one_move', 'emplace', 'insert_n', 'insert_range_ptr', 'insert_range_fwd',
                     'append_range_ptr', 'assign_range_fwd', 'insert_il', 'resize', 'resize_val', 'assign_n', 'reserve', 'append_n', 'append_n_val', 'access']
         return limit_queries(Query, tier) + vec_queries(Query, grow_ops, fcv) + vec_queries(Query, ['access'], [vec_cfg(1, 2, 'B'), vec_cfg(0, 0, 'B', s='uint32_t')])
+    if pid == 'C15':
+        qs = []
+        stds = ['c++11', 'c++14', 'c++17', 'c++20']
+        ops = ['uninitialized_copy', 'uninitialized_move', 'uninitialized_relocate', 'relocate_at', 'destroy', 'construct_value', 'construct_at']
+        combos = [('X', 0, 4), ('B', 0, None), ('R', 1, 4), ('T3', 2, None)] if quick else \
+                 [(e, it, (4 if e in ('R', 'X') else None)) for e in ('B', 'T3', 'R', 'X') for it in (0, 1, 2)] + [('X', 3, 4), ('R', 3, None), ('B', 3, None)]
+        for std in stds:
+            for e, it, f in combos:
+                d = {'MA_E': e, 'MA_IT': it, 'MA_MAX': 4}
+                if e in ('R', 'X'): d['VF_NID'] = 24
+                if f: d['VF_FAULTS'] = f
+                for op in ops:
+                    if it == 3 and op != 'uninitialized_copy': continue
+                    opt = (2,) if not f or op in ('uninitialized_move', 'uninitialized_relocate', 'relocate_at', 'destroy') else ()
+                    qs.append(Query('ma_%s.%s_it%d_%s%s' % (op, e, it, std.replace('c++', 'cxx'), '_f' if f else ''), 'mem_algos.cpp', 'h_' + op, defs=d, std=std, arena=(2, 16),
+                                    unwind=7, timeout=300, mem_gb=3, optional_reach=opt,
+                                    symbolic='length 0..4, element values, form (range / count), fault index', bounds=dict(length_max=4, faults_max=f or 0, standard=std)))
+        return qs
+    if pid == 'C18':
+        qs = []
+        for st in ['u8', 'i8', 'u16', 'i16', 'u32', 'i32', 'u64']:
+            qs.append(Query('next_capacity_%s' % st, 'vec_growth.cpp', 'h_next_capacity_%s' % st, defs={}, arena=(2, 16), unwind=3, timeout=300,
+                            optional_reach=(3,) if st == 'u64' else (), symbolic='old capacity, needed size (full width), exact flag', bounds=dict(width='full %s' % st)))
+        loops = [(0, 0, 'B', 0, 64), (1, 0, 'B', 0, 64), (0, 1, 'B', 0, 64), (1, 0, 'B', 1, 10), (0, 0, 'B', 2, 48), (1, 0, 'B', 3, 48), (1, 1, 'X', 0, 16)]
+        if not quick: loops += [(0, 0, 'B', 0, 128), (1, 1, 'B', 1, 12), (0, 1, 'X', 0, 24), (1, 0, 'R', 0, 32), (0, 1, 'R', 2, 32), (1, 0, 'B', 2, 96), (0, 1, 'B', 3, 64)]
+        for kind, ak, e, start, nmax in loops:
+            d = {'GR_KIND': kind, 'GR_AK': ak, 'GR_E': e, 'GR_START': min(start, 2), 'GR_NMAX': nmax}
+            if start >= 2: d['GR_RESERVE'] = {2: 5, 3: 8}[start]
+            if e != 'B': d['VF_NID'] = 120
+            cap = (3 * (nmax + 8)) // 2 + 2
+            qs.append(Query('append_loop.%s_%s_%s_s%d_n%d' % ('sv2' if kind else 'vec', ['LA', 'SA'][ak], e, start, nmax), 'vec_growth.cpp', 'h_append_loop', defs=d,
+                            arena=(3, (cap * ESZ[e] + 15) // 16 * 16), unwind=nmax + 2, timeout=900, mem_gb=6,
+                            symbolic='number of push_backs n, start state', bounds=dict(n_max=nmax, start=['empty', 'symbolic inline/heap state', 'after reserve(5)', 'after reserve(8)'][start])))
+        qs += vec_queries(Query, ['reserve', 'shrink_to_fit'], [vec_cfg(1, 2, 'B'), vec_cfg(0, 0, 'B', s='uint32_t'), vec_cfg(1, 2, 'X', ak=2, cls=1, cmax=4), vec_cfg(1, 3, 'R', ak=0, cmax=5)])
+        return qs
     if pid == 'C09':
         F = 5
         fault_ops = ['push_back_copy', 'emplace_back', 'insert_one_copy', 'emplace', 'insert_n', 'insert_range_fwd', 'append_range_ptr', 'assign_range_fwd',
